@@ -41,6 +41,8 @@ type Input struct {
 	P    hx.B   `json:"p,omitempty"`
 	Q    hx.B   `json:"q,omitempty"`
 	Ops  []Op   `json:"ops,omitempty"`
+	// ftp: which layout of the root's surroundings (see treeSpec)
+	Layout int `json:"layout,omitempty"`
 }
 
 // ---- path enumeration ----
@@ -133,7 +135,8 @@ type entry struct {
 }
 
 type window struct {
-	base   string // the window around the root: everything at or beneath base
+	win    string // the window around the root: everything at or beneath win is snapshotted
+	base   string // win/L1/L2: the file system base given to the service (root = base/ftp/root)
 	root   string // base/ftp/root
 	abs    string // a host directory whose absolute name is mirrored inside the root
 	cwdTop string // parent of the harness's working directory
@@ -142,7 +145,8 @@ type window struct {
 
 // newWindow lays the scratch areas out beneath top.
 func newWindow(top string) window {
-	w := window{base: filepath.Join(top, "c11win"), abs: filepath.Join(top, "c11-host-sentinel"), cwdTop: filepath.Join(top, "c11cwd")}
+	w := window{win: filepath.Join(top, "c11win"), abs: filepath.Join(top, "c11-host-sentinel"), cwdTop: filepath.Join(top, "c11cwd")}
+	w.base = filepath.Join(w.win, "L1", "L2")
 	w.root = filepath.Join(w.base, "ftp", "root")
 	w.wd = filepath.Join(w.cwdTop, "wd")
 	return w
@@ -160,30 +164,48 @@ func secret(tag string, n int) string {
 	return s
 }
 
+// The root lies four levels below the window top: <win>/L1/L2/ftp/root.  Three layouts of what
+// surrounds it (bit k of lay = present in layout k):
+//   0  same-named sentinel files and directories beside the root, in every ancestor
+//   1  the ancestors hold nothing but the chain down to the root (as with a single
+//      makeRoot-style root): removing the root leaves its parent empty
+//   2  every ancestor holds the chain and one EMPTY sentinel directory
+// The window top always holds a sentinel file and an empty sentinel directory.
+const nLayouts = 3
+
 var treeSpec = []struct {
 	rel  string
 	dir  bool
 	data string
+	lay  int
 }{
-	{"ftp", true, ""},
-	{"ftp/root", true, ""},
-	{"ftp/root/a", true, ""},
-	{"ftp/root/a/a", true, ""},
-	{"ftp/root/a/a/b", true, ""},
-	{"ftp/root/a/b", false, "inside-a-b"},
-	{"ftp/root/b", false, "inside-b-0123456789"},
-	{"ftp/a", true, ""},
-	{"ftp/a/a", true, ""},
-	{"ftp/a/b", false, "SENTINEL-1-QZXJ"},
-	{"ftp/b", false, "SENTINEL-2-QZXJ"},
-	{"ftp/SENTINEL-d", true, ""},
-	{"ftp/SENTINEL-d/a", false, "SENTINEL-3-QZXJ"},
-	{"ftp/secret.txt", false, secret("S1", 777)},
-	{"a", true, ""},
-	{"a/a", true, ""},
-	{"a/b", false, "SENTINEL-4-QZXJ"},
-	{"b", false, "SENTINEL-5-QZXJ"},
-	{"secret.txt", false, secret("S2", 1234)},
+	{"SENTINEL-top", false, "SENTINEL-0-QZXJ", 7},
+	{"EMPTY-top", true, "", 7},
+	{"L1", true, "", 7},
+	{"L1/L2", true, "", 7},
+	{"L1/L2/ftp", true, "", 7},
+	{"L1/L2/ftp/root", true, "", 7},
+	{"L1/L2/ftp/root/a", true, "", 7},
+	{"L1/L2/ftp/root/a/a", true, "", 7},
+	{"L1/L2/ftp/root/a/a/b", true, "", 7},
+	{"L1/L2/ftp/root/a/b", false, "inside-a-b", 7},
+	{"L1/L2/ftp/root/b", false, "inside-b-0123456789", 7},
+	{"L1/L2/ftp/a", true, "", 1},
+	{"L1/L2/ftp/a/a", true, "", 1},
+	{"L1/L2/ftp/a/b", false, "SENTINEL-1-QZXJ", 1},
+	{"L1/L2/ftp/b", false, "SENTINEL-2-QZXJ", 1},
+	{"L1/L2/ftp/SENTINEL-d", true, "", 1},
+	{"L1/L2/ftp/SENTINEL-d/a", false, "SENTINEL-3-QZXJ", 1},
+	{"L1/L2/ftp/secret.txt", false, secret("S1", 777), 1},
+	{"L1/L2/a", true, "", 1},
+	{"L1/L2/a/a", true, "", 1},
+	{"L1/L2/a/b", false, "SENTINEL-4-QZXJ", 1},
+	{"L1/L2/b", false, "SENTINEL-5-QZXJ", 1},
+	{"L1/L2/secret.txt", false, secret("S2", 1234), 1},
+	{"L1/b", false, "SENTINEL-6-QZXJ", 1},
+	{"L1/L2/ftp/EMPTY-SENTINEL", true, "", 4},
+	{"L1/L2/EMPTY-SENTINEL", true, "", 4},
+	{"L1/EMPTY-SENTINEL", true, "", 4},
 }
 
 // beside the harness's working directory (names a client can give relative to it)
@@ -217,8 +239,10 @@ func mustWrite(p string, dir bool, data string) {
 // the host file <abs>/f and, inside the root, a regular file with the same absolute name
 func (w window) absFile() string { return filepath.Join(w.abs, "f") }
 
-func (w window) reset() {
-	for _, d := range []string{w.base, w.abs} {
+func (w window) reset() { w.resetLayout(0) }
+
+func (w window) resetLayout(layout int) {
+	for _, d := range []string{w.win, w.abs} {
 		if err := os.RemoveAll(d); err != nil {
 			hx.Fatal("reset window: %v", err)
 		}
@@ -227,15 +251,19 @@ func (w window) reset() {
 		}
 	}
 	for _, t := range treeSpec {
-		mustWrite(filepath.Join(w.base, t.rel), t.dir, t.data)
+		if t.lay&(1<<uint(layout)) != 0 {
+			mustWrite(filepath.Join(w.win, t.rel), t.dir, t.data)
+		}
 	}
 	mustWrite(w.absFile(), false, "SENTINEL-ABS-QZXJ")
 	mustWrite(filepath.Join(w.abs, "d"), true, "")
-	mirror := filepath.Join(w.root, w.abs)
-	if err := os.MkdirAll(mirror, 0o755); err != nil {
-		hx.Fatal("build window: %v", err)
+	if layout == 0 {
+		mirror := filepath.Join(w.root, w.abs)
+		if err := os.MkdirAll(mirror, 0o755); err != nil {
+			hx.Fatal("build window: %v", err)
+		}
+		mustWrite(filepath.Join(mirror, "f"), false, "inside-mirror")
 	}
-	mustWrite(filepath.Join(mirror, "f"), false, "inside-mirror")
 	// the working directory itself must stay (it is the process's cwd): empty it instead
 	if err := os.MkdirAll(w.wd, 0o755); err != nil {
 		hx.Fatal("reset window: %v", err)
@@ -269,7 +297,7 @@ var (
 // the root has (directories 0751, files 0640, 2001-02-03 04:05) and the initial content of
 // the root a fixed time of its own: metadata of an outside entry is recognisable in a listing.
 func (w window) stamp() {
-	for _, top := range []string{w.base, w.abs, w.cwdTop} {
+	for _, top := range []string{w.win, w.abs, w.cwdTop} {
 		var paths []string
 		filepath.Walk(top, func(p string, info os.FileInfo, err error) error {
 			if err == nil {
@@ -325,7 +353,7 @@ func (w window) snapshot() []entry {
 		out = append(out, e)
 		return nil
 	}
-	for _, d := range []string{w.base, w.abs, w.cwdTop} {
+	for _, d := range []string{w.win, w.abs, w.cwdTop} {
 		if err := filepath.Walk(d, walk); err != nil {
 			hx.Fatal("snapshot: %v", err)
 		}
@@ -336,6 +364,20 @@ func (w window) snapshot() []entry {
 
 // long contents of the initial window are named once in the shard header
 var namedContent = map[string]string{}
+
+// mode of every entry of the snapshot areas that is not inside the root
+func (w window) outsideModes() map[string]os.FileMode {
+	m := map[string]os.FileMode{}
+	for _, d := range []string{w.win, w.abs, w.cwdTop} {
+		filepath.Walk(d, func(p string, info os.FileInfo, err error) error {
+			if err == nil && p != w.root && !strings.HasPrefix(p, w.root+"/") {
+				m[p] = info.Mode()
+			}
+			return nil
+		})
+	}
+	return m
+}
 
 func coqFS(es []entry) string {
 	var xs []string
@@ -470,8 +512,12 @@ func main() {
 	if err := os.Chdir(w.wd); err != nil {
 		hx.Fatal("chdir: %v", err)
 	}
-	w.reset()
-	fs0 := w.snapshot()
+	var fsL [nLayouts][]entry
+	for l := nLayouts - 1; l >= 0; l-- {
+		w.resetLayout(l)
+		fsL[l] = w.snapshot()
+	}
+	fs0 := fsL[0]
 	header := "From HT Require Import Common.Bytes C11.Model C11.Check.\n"
 	for _, e := range fs0 {
 		if !e.Dir && len(e.Data) > 100 {
@@ -484,6 +530,10 @@ func main() {
 	}
 	header += "Definition ROOT : bytes := " + hx.CoqStr(w.root) + ".\n" +
 		"Definition FS0 : hostfs := " + coqFS(fs0) + ".\n"
+	ftpHeader := header
+	for l := 1; l < nLayouts; l++ {
+		ftpHeader += fmt.Sprintf("Definition FS%d : hostfs := %s.\n", l, coqFS(fsL[l]))
+	}
 
 	var replay *Input
 	if o.Only != "" {
@@ -628,7 +678,7 @@ func main() {
 
 	// ---------- ftp ----------
 	if replay == nil || replay.Part == "ftp" || replay.Part == "ftp-cwd" {
-		runFtpPart(o, r, w, out, header, all, replay)
+		runFtpPart(o, r, w, out, ftpHeader, all, replay)
 	}
 }
 
